@@ -44,7 +44,15 @@ NATIVE = {
         ("C15:Bag.json", "histogrammar.primitives.bag.Bag.fromJsonFragment", "bounded:single-point-mutations",
          "all single-point structural mutations (delete key, add key, retype value, rename type, negative entries, version) of 6 Bag documents"),
     ],
+    "C02": [
+        ("C02:Bag.vector", "histogrammar.primitives.bag.Bag._update", "bounded:vector-keys-form-a-value-to-weight-map",
+         "Bag of range N2 / N3 (outside the wf of the proved Bag.fill contract, which covers ranges N and S): sequences of up to 3 fills of vectors over {0.5, -1, nan (a fresh float object each time), inf}: one key per distinct vector with NaN == NaN, weights add up to entries, content independent of the fill order, JSON round trip keeps keys and weight"),
+    ],
     "C09": [
+        ("C09:Bag.vector", "histogrammar.primitives.bag.Bag.__eq__", "bounded:vector-keys-eq-sound-complete",
+         "Bag of range N2 / N3 filled with up to 3 vectors over {0.5, -1, nan, inf}: equal to its copy, pickle clone and refill (== and !=); one component of one key replaced (incl. nan vs number) makes them unequal"),
+        ("C09:clones", "histogrammar.defs.Container.__eq__", "bounded:clones-compare-equal",
+         "every class x child kind, filled with 0..4 data (incl. NaN): equal to an identically filled twin, to its pickle clone, and two JSON reloads of one document equal each other (== and !=); Stack.build (all thresholds NaN) equal to its copy, pickle clone and JSON reload - the states outside the wf of the proved __eq__ contracts"),
         ("C09:Bag.__eq__", "histogrammar.primitives.bag.Bag.__eq__", "bounded:eq-sound-complete-total",
          "Bag of range N filled with all sequences of length <= 2 over {0.5, 2.0, inf, -inf, nan, -3.0} plus structural variants; == and != against copies, one-datum differences and non-Bag operands"),
     ],
